@@ -199,15 +199,16 @@ PROPS["C20"] = {
 
 PROPS["C12"] = {
     "feature": "c12",
-    "tiers": tiers("C12"),
-    "mem_gb": 20,
+        "mem_gb": 20,
+    "tiers": {"quick": [(DAON, ["c12_q_"])], "thorough": [(DAON, ["c12_q_", "c12_t_"]), (DAOFF, ["c12_q_"])], "probe": [(DAON, ["c12_p_"])]},
     "overrides": [(r"_t_", {"mem_gb": 40, "timeout": {"quick": 900, "thorough": 5400}})],
     "functions": ["BitAnd/BitOr for &SeqSlice<Iupac>", "Seq::bit_and/bit_or", "contains on Seq<Iupac> and SeqSlice<Iupac>", "Iupac one-hot encoding, complement table"],
     "bounds": {"quick": "symbols: all 256 pairs decided by the solver (union, intersection, gap for the empty set, complement distributes); sequences: borrowed "
                         "operands of ONE symbol at independent offsets (0/4 and 15/7, 15 = last symbol of a word), owned operands (bit_or/bit_and) of 2 symbols, "
                         "contains for 1-symbol operands (borrowed and owned pattern) and a length mismatch; symbolic content, symbolic probe position",
-               "thorough": "adds borrowed operands of 2-4 symbols and contains on 2-3 symbols (each harness needs 20-40 GB and up to an hour: the per-bit "
-                           "remainder loop of bitvec's op-assign on heap bit-vectors is the most expensive path met in this code base)"},
+               "thorough": "adds one borrowed `&` on 2-symbol operands at a word-straddling offset (30 GB, ~25 min), empty operands and the other "
+                           "length-mismatch direction; 3-4 symbol borrowed operands and multi-symbol contains are written (c12_x_*) but in no tier: "
+                           "20-40 GB and up to an hour each (per-bit remainder loop of bitvec's op-assign on heap bit-vectors)"},
     "outside": "other offsets and longer operands; SeqArray::contains (same body as the slice form)",
 }
 
